@@ -8,5 +8,5 @@ CONSTANTS
   MaxBatches = 2
   Repl <- ReplSet
   GenHist = FALSE
-INVARIANTS TypeOK MapOK Emit
+INVARIANTS TypeOK MapOK AnyTilingPartitions Emit
 CHECK_DEADLOCK FALSE
